@@ -97,4 +97,150 @@ example :
     (lexAll 50 "(rule ((P x)) ((panic \"say \\\"hi\\\" \\\\ there\"))) ; c".toList).bind
       (fun toks => (parseSx 50 false toks).map (·.2)) = some [] := by decide
 
+/-! ### text level: printed token streams lex back to themselves -/
+
+/-- characters that end an atom -/
+def isDelim (c : Char) : Bool := isWs c || c = ';' || c = '(' || c = ')'
+
+/-- an atom (symbol, number, keyword …) as the printer emits it: non-empty, no delimiter inside,
+not starting with a double quote -/
+def SafeAtom (s : List Char) : Prop := s ≠ [] ∧ s.head? ≠ some '"' ∧ ∀ c ∈ s, isDelim c = false
+
+def renderTok : Tok → List Char
+  | .open => ['(']
+  | .close => [')']
+  | .str s => printString s
+  | .other s => s
+
+/-- the printer's output shape: tokens separated by single spaces -/
+def renderToks : List Tok → List Char
+  | [] => []
+  | t :: ts => renderTok t ++ ' ' :: renderToks ts
+
+def SafeTok : Tok → Prop
+  | .other s => SafeAtom s
+  | _ => True
+
+theorem lexOther_safe : ∀ (s acc rest : List Char), (∀ c ∈ s, isDelim c = false) →
+    lexOther (s ++ ' ' :: rest) acc = (acc.reverse ++ s, ' ' :: rest) := by
+  intro s
+  induction s with
+  | nil =>
+    intro acc rest _
+    have : isWs ' ' = true := by decide
+    simp [lexOther, this]
+  | cons c cs ih =>
+    intro acc rest h
+    have hc := h c List.mem_cons_self
+    unfold isDelim at hc
+    simp only [Bool.or_eq_false_iff, decide_eq_false_iff_not] at hc
+    obtain ⟨⟨⟨h1, h2⟩, h3⟩, h4⟩ := hc
+    simp only [List.cons_append, lexOther, h1, h2, h3, h4, Bool.false_eq_true, decide_false, Bool.or_self, if_false]
+    rw [ih (c :: acc) rest (fun x hx => h x (List.mem_cons_of_mem _ hx))]
+    simp
+
+theorem skipWs_space (cs : List Char) : skipWs (' ' :: cs) false = skipWs cs false := by
+  have h1 : (' ' : Char) ≠ ';' := by decide
+  have h2 : (' ' : Char) ≠ '\n' := by decide
+  have h3 : isWs ' ' = true := by decide
+  simp [skipWs, h1, h2, h3]
+
+theorem skipWs_nondelim {c : Char} (cs : List Char) (h : isDelim c = false) : skipWs (c :: cs) false = c :: cs := by
+  unfold isDelim at h
+  simp only [Bool.or_eq_false_iff, decide_eq_false_iff_not] at h
+  obtain ⟨⟨⟨h1, h2⟩, _⟩, _⟩ := h
+  have hnl : c ≠ '\n' := by
+    intro e; subst e
+    exact absurd h1 (by decide)
+  simp [skipWs, h2, hnl, h1]
+
+/-- one printed token followed by a space lexes to that token, and lexing resumes at the space -/
+theorem nextTok_render (t : Tok) (rest : List Char) (h : SafeTok t) :
+    nextTok (renderTok t ++ ' ' :: rest) = some (some (t, ' ' :: rest)) := by
+  cases t with
+  | «open» =>
+    have : skipWs ('(' :: ' ' :: rest) false = '(' :: ' ' :: rest := by simp [skipWs, isWs]
+    simp [renderTok, nextTok, this]
+  | close =>
+    have : skipWs (')' :: ' ' :: rest) false = ')' :: ' ' :: rest := by simp [skipWs, isWs]
+    simp [renderTok, nextTok, this]
+  | str s =>
+    have hq : skipWs ('"' :: (escape s ++ '"' :: ' ' :: rest)) false = '"' :: (escape s ++ '"' :: ' ' :: rest) := by
+      simp [skipWs, isWs]
+    simp only [renderTok, printString, nextTok, List.cons_append, List.append_assoc, List.nil_append, hq]
+    simp [C15_string]
+  | other s =>
+    obtain ⟨hne, hq, hall⟩ := h
+    cases s with
+    | nil => exact absurd rfl hne
+    | cons c cs =>
+      have hc := hall c List.mem_cons_self
+      have hcq : c ≠ '"' := by intro e; apply hq; simp [e]
+      have hd := hc
+      unfold isDelim at hd
+      simp only [Bool.or_eq_false_iff, decide_eq_false_iff_not] at hd
+      obtain ⟨⟨⟨_, _⟩, ho⟩, hcl⟩ := hd
+      simp only [renderTok, List.cons_append, nextTok, skipWs_nondelim _ hc, ho, hcl, hcq, if_false]
+      rw [lexOther_safe cs [c] rest (fun x hx => hall x (List.mem_cons_of_mem _ hx))]
+      simp
+
+theorem lexAll_succ (fuel : Nat) (cs : List Char) : lexAll (fuel + 1) cs =
+    match nextTok cs with
+    | none => none
+    | some none => some []
+    | some (some (t, rest)) => (lexAll fuel rest).map (t :: ·) := rfl
+
+/-- **Printed token streams lex back to themselves**: for every sequence of tokens — parentheses,
+string literals with ANY content, atoms without delimiters — the text the printer emits (tokens
+separated by spaces) is lexed to exactly that sequence.  With `C15_tree` this is the text-level
+round trip of every s-expression. -/
+theorem C15_text : ∀ (toks : List Tok), (∀ t ∈ toks, SafeTok t) →
+    lexAll (toks.length + 1) (renderToks toks) = some toks := by
+  intro toks
+  have key : ∀ (toks : List Tok), (∀ t ∈ toks, SafeTok t) → ∀ (pre : List Char), (∀ c ∈ pre, c = ' ') →
+      lexAll (toks.length + 1) (pre ++ renderToks toks) = some toks := by
+    intro toks
+    induction toks with
+    | nil =>
+      intro _ pre hpre
+      have : skipWs (pre ++ []) false = [] := by
+        induction pre with
+        | nil => rfl
+        | cons c cs ih =>
+          have hc : c = ' ' := hpre c List.mem_cons_self
+          subst hc
+          rw [List.cons_append, skipWs_space]
+          exact ih (fun x hx => hpre x (List.mem_cons_of_mem _ hx))
+      simp only [renderToks, List.length_nil]
+      rw [lexAll_succ]
+      simp only [nextTok, this]
+    | cons t ts ih =>
+      intro hs pre hpre
+      have hskip : ∀ (pre : List Char), (∀ c ∈ pre, c = ' ') → ∀ (body : List Char),
+          nextTok (pre ++ body) = nextTok body := by
+        intro pre
+        induction pre with
+        | nil => intro _ body; rfl
+        | cons c cs ihp =>
+          intro hp body
+          have hc : c = ' ' := hp c List.mem_cons_self
+          subst hc
+          have := ihp (fun x hx => hp x (List.mem_cons_of_mem _ hx)) body
+          unfold nextTok at this ⊢
+          rw [List.cons_append, skipWs_space]
+          exact this
+      simp only [renderToks, List.length_cons]
+      rw [lexAll_succ, hskip pre hpre, nextTok_render t _ (hs t List.mem_cons_self)]
+      simp only
+      have := ih (fun x hx => hs x (List.mem_cons_of_mem _ hx)) [' '] (by simp)
+      simp only [List.cons_append, List.nil_append] at this
+      rw [this]; rfl
+  intro hs
+  simpa using key toks hs [] (by simp)
+
+/-- non-vacuity: `(set (f "a\"b") -3)` -/
+example : lexAll 9 (renderToks [.open, .other "set".toList, .open, .other "f".toList, .str "a\"b".toList, .close,
+    .other "-3".toList, .close]) = some [.open, .other "set".toList, .open, .other "f".toList, .str "a\"b".toList, .close,
+    .other "-3".toList, .close] := by decide
+
 end EgglogVerif.Sexp
